@@ -950,7 +950,8 @@ fn gen_tx(rng: &mut Rng, cfg: &Cfg, now: u64) -> TxSpec {
         3 => nb_edge.saturating_sub(1),
         4 => nb_edge + 2,
         5 => (253 * w) / 1000,
-        6 => 4_294_968 * w / 1000 + rng.below(5) as u128, // feerate ≈ 2^32 (the old `as u32` truncation wrapped here)
+        // feerate just above 2^32 sat/kw: the old `as u32` truncation wrapped it to a small accepted value
+        6 => (4_294_967_296u128 * w + 999) / 1000 + rng.below(50) as u128,
         7 => 25_8000_0000u128 + rng.below(1000) as u128,
         8 => u64::MAX as u128 / 1000 + rng.below(3) as u128,
         _ => rng.below((nb_edge + 2) as u64) as u128,
